@@ -167,6 +167,10 @@ fn check(args: &Args) -> i32 {
                 // the same bound seen through a client built by Client::builder()
                 parts.push(run_part(&e2e::E2eIdleSim, &cfg("e2eidle"), &known, &mut verdict));
             }
+            if property == "C02" {
+                // the real HttpConnection (stubbed in poolsim) under the real pool: rule busy_connection_handed_out
+                parts.push(run_part(&e2e::E2eSim, &cfg("e2esim"), &known, &mut verdict));
+            }
             if property == "C17" {
                 parts.push(run_part(&e2e::grammar::GrammarSim, &cfg("grammar"), &known, &mut verdict));
                 // panics seen while running the ordinary end-to-end workload count as well
